@@ -25,9 +25,12 @@ import (
 )
 
 type c15Op struct {
-	Op string `json:"op"` // w | wb | ws | flush | close | isopen | rem | read | kill
+	Op string `json:"op"` // w | wb | ws | flush | close | isopen | rem | read | kill | down | up
 	N  int    `json:"n,omitempty"`
-	D  int    `json:"d,omitempty"` // kill: which destination's socket is closed behind the transport's back
+	// kill: which destination's client socket is closed behind the transport's back;
+	// down / up: which destination stops listening (its port becomes unreachable:
+	// a later send may be refused with ECONNREFUSED) / listens again on the same port
+	D int `json:"d,omitempty"`
 }
 
 type c15Case struct {
@@ -140,13 +143,16 @@ func c15Code(err error) int64 {
 }
 
 type c15Run struct {
-	In, Obs    []Ev
-	Pred       string
-	Fail       string
-	Delivered  int
-	Refused    int
-	SendFail   int
-	AfterClose int
+	In, Obs     []Ev
+	Pred        string
+	Fail        string
+	Delivered   int
+	Refused     int
+	SendFail    int
+	DestDown    int  // destinations taken down (port unreachable) during the case
+	SendRefused int  // sends the kernel refused on a destination that had been down
+	Skip        bool // the listener could not be re-opened on its port: inconclusive
+	AfterClose  int
 }
 
 func (r *c15Run) fail(pred, f string, a ...interface{}) {
@@ -165,7 +171,7 @@ func c15RunTransport(c *c15Case) (res c15Run) {
 	for i := range ls {
 		ls[i] = c15Listen()
 		hp[i] = ls[i].LocalAddr().String()
-		defer ls[i].Close()
+		defer func(i int) { ls[i].Close() }(i)
 	}
 	var single *thriftudp.TUDPTransport
 	var multi *thriftudp.TMultiUDPTransport
@@ -192,14 +198,46 @@ func c15RunTransport(c *c15Case) (res c15Run) {
 	acc := make([][]byte, n)
 	refused := make([]bool, n)
 	killed := make([]bool, n)
+	down := make([]bool, n)  // the destination is not listening right now
+	flaky := make([]bool, n) // the destination has been down: whether a send is refused is the kernel's choice
+	anyKilled, flakyDest := false, -1
 	closed, undef := false, false
 	buf := make([]byte, 70000)
 
 	for idx, o := range c.Ops {
-		if o.Op == "kill" {
-			if o.D < n {
+		switch o.Op {
+		case "kill":
+			// (one fault kind per case: the multi transport returns only the first error)
+			if o.D < n && flakyDest < 0 {
 				kids[o.D].Conn().Close()
 				killed[o.D] = true
+				anyKilled = true
+			}
+			continue
+		case "down":
+			if o.D < n && !anyKilled && !down[o.D] && (flakyDest < 0 || flakyDest == o.D) {
+				ls[o.D].Close()
+				down[o.D], flaky[o.D], flakyDest = true, true, o.D
+				res.DestDown++
+			}
+			continue
+		case "up":
+			if o.D < n && down[o.D] {
+				addr, _ := net.ResolveUDPAddr("udp", hp[o.D])
+				var l *net.UDPConn
+				var e error
+				for try := 0; try < 100; try++ {
+					if l, e = net.ListenUDP("udp", addr); e == nil {
+						break
+					}
+					time.Sleep(2 * time.Millisecond)
+				}
+				if e != nil {
+					res.Skip = true // somebody else took the port: the case cannot be continued
+					return
+				}
+				l.SetReadBuffer(8 << 20)
+				ls[o.D], down[o.D] = l, false
 			}
 			continue
 		}
@@ -216,10 +254,24 @@ func c15RunTransport(c *c15Case) (res c15Run) {
 			}()
 			f()
 		}
-		oracle := func(k int) Ev {
+		// the socket oracle handed to the model, per destination: 0 the call on
+		// the socket fails, 1 it succeeds, 2 (Flush) it succeeds but nobody
+		// listens: the datagram is lost.  For a destination that has been down
+		// the kernel decides whether a send is refused (ECONNREFUSED answers an
+		// earlier datagram): the oracle is read off the result of the call.
+		oracle := func(k int, sockErr bool) Ev {
 			e := Ev{K: k}
 			for d := 0; d < n; d++ {
-				e.I = append(e.I, b2i(!killed[d]))
+				v := b2i(!killed[d])
+				if k == 4 && flaky[d] {
+					switch {
+					case sockErr:
+						v = 0
+					case down[d]:
+						v = 2
+					}
+				}
+				e.I = append(e.I, v)
 			}
 			return e
 		}
@@ -255,7 +307,6 @@ func c15RunTransport(c *c15Case) (res c15Run) {
 				call(func() { code = c15Code(single.WriteByte(payload[0])) })
 			}
 		case "flush":
-			in = oracle(4)
 			call(func() {
 				if c.Multi {
 					code = c15Code(multi.Flush())
@@ -263,8 +314,15 @@ func c15RunTransport(c *c15Case) (res c15Run) {
 					code = c15Code(single.Flush())
 				}
 			})
+			in = oracle(4, code == 3)
+			if flakyDest >= 0 && code == 3 {
+				res.SendRefused++
+			}
+			if flakyDest >= 0 && down[flakyDest] {
+				time.Sleep(200 * time.Microsecond) // let the port-unreachable answer arrive (no verdict depends on it)
+			}
 		case "close":
-			in = oracle(5)
+			in = oracle(5, false)
 			call(func() {
 				if c.Multi {
 					code = c15Code(multi.Close())
@@ -350,10 +408,11 @@ func c15RunTransport(c *c15Case) (res c15Run) {
 		}
 		if check && o.Op == "flush" {
 			for d := 0; d < n; d++ {
-				if !refused[d] && !killed[d] {
+				sendFails := killed[d] || (flaky[d] && code == 3)
+				if !refused[d] && !sendFails && !down[d] {
 					want[d] = 1
 				}
-				if killed[d] {
+				if sendFails {
 					res.SendFail++
 				}
 			}
@@ -380,6 +439,9 @@ func c15RunTransport(c *c15Case) (res c15Run) {
 			}
 		}
 		for d := 0; d < n; d++ {
+			if down[d] {
+				continue // nobody listens: nothing can be received
+			}
 			got := c15Recv(ls[d], want[d], buf)
 			for _, g := range got {
 				a, cc := c15Fletcher(g)
@@ -418,6 +480,9 @@ func c15RunTransport(c *c15Case) (res c15Run) {
 	// nothing may arrive after the last call
 	time.Sleep(100 * time.Microsecond)
 	for d := 0; d < n; d++ {
+		if down[d] {
+			continue
+		}
 		for _, g := range c15Recv(ls[d], 0, buf) {
 			a, cc := c15Fletcher(g)
 			res.Obs = append(res.Obs, Ev{K: 21, I: []int64{int64(d), int64(len(g)), a, cc}})
@@ -654,12 +719,23 @@ func c15Gen(r *Rng, restricted bool) c15Case {
 		p := r.Intn(len(c.Ops) + 1)
 		c.Ops = append(c.Ops[:p], append([]c15Op{o}, c.Ops[p:]...)...)
 	}
-	if r.Chance(30) && c.Dests > 0 {
+	switch x := r.Intn(100); {
+	case c.Dests == 0:
+	case x < 27:
 		d := r.Intn(c.Dests)
 		if restricted && c.Multi {
 			d = c.Dests - 1 // the pinned multi transport stops at the first failing destination
 		}
 		ins(c15Op{Op: "kill", D: d})
+	case x < 45:
+		// the destination is down for a while (its port is unreachable), then
+		// comes back: messages flushed into the void, then the next messages
+		d := r.Intn(c.Dests)
+		p := r.Intn(len(c.Ops) + 1)
+		if restricted {
+			d, p = c.Dests-1, 0
+		}
+		c.Ops = append(c.Ops[:p], append(c15DownEpisode(r, d, rich), c.Ops[p:]...)...)
 	}
 	if r.Chance(25) {
 		ins(c15Op{Op: "close"})
@@ -677,6 +753,59 @@ func c15Gen(r *Rng, restricted bool) c15Case {
 		}
 	}
 	return c
+}
+
+// destination d stops listening, 1..4 small messages are flushed at it, it
+// listens again, 1..2 further messages follow
+func c15DownEpisode(r *Rng, d int, rich bool) []c15Op {
+	msg := func() []c15Op {
+		var m []c15Op
+		for k := 1 + r.Intn(2); k > 0; k-- {
+			switch {
+			case rich && r.Chance(25):
+				m = append(m, c15Op{Op: "wb"})
+			case rich && r.Chance(30):
+				m = append(m, c15Op{Op: "ws", N: 1 + r.Intn(40)})
+			default:
+				m = append(m, c15Op{Op: "w", N: 1 + r.Intn(40)})
+			}
+		}
+		return append(m, c15Op{Op: "flush"})
+	}
+	ops := []c15Op{{Op: "down", D: d}}
+	for k := 1 + r.Intn(4); k > 0; k-- {
+		ops = append(ops, msg()...)
+	}
+	ops = append(ops, c15Op{Op: "up", D: d})
+	for k := 1 + r.Intn(2); k > 0; k-- {
+		ops = append(ops, msg()...)
+	}
+	return ops
+}
+
+// the fixed part of the "destination down" stream: the collector restarts
+// while messages are being flushed (cf. the property: "leaves the buffer empty
+// whether or not the send succeeded", "after any failed or abandoned message
+// the next message is transmitted complete, alone and uncorrupted")
+func c15DownCases() []c15Case {
+	ep := func(d, during int) []c15Op {
+		ops := []c15Op{{Op: "w", N: 7}, {Op: "flush"}, {Op: "down", D: d}}
+		for k := 0; k < during; k++ {
+			ops = append(ops, c15Op{Op: "w", N: 19}, c15Op{Op: "flush"})
+		}
+		return append(ops, c15Op{Op: "up", D: d}, c15Op{Op: "w", N: 12}, c15Op{Op: "flush"}, c15Op{Op: "w", N: 5}, c15Op{Op: "flush"})
+	}
+	var out []c15Case
+	for during := 1; during <= 4; during++ {
+		out = append(out, c15Case{Kind: "transport", Dests: 1, Ops: ep(0, during)})
+	}
+	for d := 0; d < 3; d++ {
+		out = append(out, c15Case{Kind: "transport", Multi: true, Dests: 3, Ops: ep(d, 2+d%2)})
+	}
+	// the message flushed while down nearly fills a datagram: kept bytes would make the next one oversize
+	out = append(out, c15Case{Kind: "transport", Dests: 1, Ops: []c15Op{{Op: "down"}, {Op: "w", N: 30}, {Op: "flush"},
+		{Op: "w", N: c15Max - 3}, {Op: "flush"}, {Op: "w", N: c15Max - 3}, {Op: "flush"}, {Op: "up"}, {Op: "w", N: 40}, {Op: "flush"}, {Op: "ws", N: 9}, {Op: "flush"}}})
+	return out
 }
 
 func c15Term(idx int, c *c15Case, run *c15Run) string {
@@ -702,7 +831,7 @@ func init() {
 		ctx.Header("UdpCorr")
 		ctx.Res.Rule = "case = (single or multi transport with n destinations, sequence of Write/WriteByte/WriteString/Flush/Close/IsOpen/RemainingBytes/Read calls with chunk sizes around MaxLength, socket of one destination closed behind the transport at a random position) or an M3 reporter scenario (oversized metric, then normal rounds); non-trivial = at least one datagram delivered or one fault (refused write, failed send, use after Close); distinct by case hash"
 		ctx.Res.Extra["max_length"] = c15Max
-		retried := 0
+		retried, inconclusive, refusedSends := 0, 0, 0
 		// runs one case (retrying once: loopback UDP may drop); returns whether the property held
 		one := func(c *c15Case, witness bool) bool {
 			if c.Kind == "reporter" {
@@ -724,10 +853,17 @@ func init() {
 				return true
 			}
 			run := c15RunTransport(c)
-			if run.Fail != "" {
+			if run.Fail != "" || run.Skip {
 				retried++
 				run = c15RunTransport(c)
 			}
+			if run.Skip {
+				// a listener could not be re-opened on its port (taken by another process): no verdict
+				inconclusive++
+				ctx.Case(c, "", "inconclusive/port-lost", "")
+				return true
+			}
+			refusedSends += run.SendRefused
 			kind := "single"
 			if c.Multi {
 				kind = fmt.Sprintf("multi%d", c.Dests)
@@ -742,6 +878,9 @@ func init() {
 				fault = "sendfail"
 			case run.AfterClose > 0:
 				fault = "afterclose"
+			}
+			if run.DestDown > 0 {
+				fault += "+destdown"
 			}
 			key := ""
 			if run.Delivered > 0 || fault != "clean" {
@@ -794,6 +933,13 @@ func init() {
 				one(&c, false)
 			}
 		}
+		// "destination down" stream, fixed part (the random part is in c15Gen)
+		if !restricted {
+			for _, c := range c15DownCases() {
+				c := c
+				one(&c, false)
+			}
+		}
 		n := ctx.N(450, 10000)
 		for i := 0; i < n; i++ {
 			c := c15Gen(ctx.R, restricted)
@@ -809,5 +955,9 @@ func init() {
 			one(&c, false)
 		}
 		ctx.Res.Extra["retried_cases"] = retried
+		ctx.Res.Extra["inconclusive_cases"] = inconclusive
+		// 0 here means the kernel never answered a send to a closed port with ECONNREFUSED:
+		// the "destination down" cases then only exercised lost datagrams (not an alarm)
+		ctx.Res.Extra["sends_refused_by_kernel_econnrefused"] = refusedSends
 	}
 }
